@@ -76,6 +76,8 @@ func (p *propRun) rapidSub(sub string, n int, prop func(t *rapid.T)) {
 	flag.Set("rapid.nofailfile", "true")
 	if os.Getenv("VERIF_SHRINKTIME") != "" {
 		flag.Set("rapid.shrinktime", os.Getenv("VERIF_SHRINKTIME"))
+	} else if !ev.Thorough() {
+		flag.Set("rapid.shrinktime", "10s")
 	}
 	p.r.P.RapidRequests[sub] = n
 	p.t.Run(sub, func(t *testing.T) {
